@@ -209,6 +209,11 @@ func H02e() {
 		return
 	}
 	vCover("issued")
+	if userDef {
+		// observation (not asserted): the policy requires an organization AND a user definition for the scope,
+		// the s2s handler issues the token after the submission fulfilled one of them
+		vCover("issued-with-one-of-two-required-definitions")
+	}
 	if n == 2 {
 		vCover("issued-2-presentations")
 	}
